@@ -65,8 +65,10 @@ func DateFromProto(proto *dtpb.Date) (Date, error) {
 		l = dayLayout
 	case dtpb.Date_MONTH:
 		l = monthLayout
+		t = time.Date(t.Year(), t.Month(), 1, 0, 0, 0, 0, time.UTC)
 	case dtpb.Date_YEAR:
 		l = yearLayout
+		t = time.Date(t.Year(), time.January, 1, 0, 0, 0, 0, time.UTC)
 	}
 	return Date{t, l}, nil
 }
